@@ -279,3 +279,58 @@ def c18_default_refused(k: int, v: Optional[int], provide: bool) -> bool:
     if k == 4:
         return verdict(r.get("data") == {"twice": None, "a": 1} and "errors" not in r)
     return verdict(True)
+
+
+# ---- a custom error_coercer that annotates `extensions` IN PLACE (the style of the documentation's example): every error keeps its own annotation -----
+SEQ = [0]
+
+
+async def stamping_coercer(exception, error):
+    SEQ[0] += 1
+    error.setdefault("extensions", {})["errorId"] = "err-%d" % SEQ[0]
+    return error
+
+
+ENGS_ = build(SDL, "c18s", custom_default_resolver=_res, error_coercer=stamping_coercer)
+STAMP_DOCS = ["{ nope nope2 }", "{ tboom x: tboom q { tboom } }", "{ boom y: boom }", "{ a(z: 1) b(z: 2) }", "{ nope }"]
+
+
+@obligation(tier="quick", timeout=120, samples=[{"k": 0, "start": 0}, {"k": 1, "start": 10}, {"k": 4, "start": -5}],
+            symbolic=["start: int — where the coercer's error counter starts"], selectors=["k: request with several errors of one rule / of one user exception class / one error"],
+            bounds="5 requests, each sent twice to the stamping engine and then to an engine with the default coercer",
+            note="an error_coercer that writes into error['extensions'] in place: every reported error carries exactly the annotation the coercer gave to THAT error (all different), in this "
+                 "response and in the next one, and nothing of it shows in the responses of another engine")
+def c18_stamping_coercer(k: int, start: int) -> bool:
+    """
+    post: _
+    """
+    k = pick(k, len(STAMP_DOCS))
+    q = STAMP_DOCS[k]
+    ENGS_._cached_parse_and_validate_query.cache_clear()
+    seen_ids = []
+    for rep in range(2):
+        SEQ[0] = start + 100 * rep
+        first = SEQ[0] + 1
+        ok, r = safe(lambda: env.run(ENGS_.execute(q, initial_value=DATA)))
+        observe(rep, r)
+        if not ok or not isinstance(r, dict) or not r.get("errors"):
+            return verdict(False)
+        n = len(r["errors"])
+        ids = []
+        for e in r["errors"]:
+            ext = e.get("extensions")
+            if not isinstance(ext, dict) or "errorId" not in ext:
+                return verdict(False)
+            ids.append(ext["errorId"])
+        want = ["err-%d" % (first + i) for i in range(n)]
+        if sorted(ids) != sorted(want):
+            return verdict(False)         # an error shows another error's annotation (or an annotation from an earlier response)
+        seen_ids += ids
+    ok, r2 = safe(lambda: env.run(ENG.execute(q, initial_value=DATA)))
+    observe("default-coercer engine", r2)
+    if not ok or not r2.get("errors"):
+        return verdict(False)
+    for e in r2["errors"]:
+        if "errorId" in (e.get("extensions") or {}):
+            return verdict(False)
+    return verdict(True)
